@@ -305,7 +305,11 @@ func c05RunCase(rep *Report, w *World, in *Instr, c c05Case) {
 		diffs = append(diffs, fmt.Sprintf("unknown attribute type %T executed", attr))
 	}
 	if len(diffs) > 0 {
-		rep.Violate(Violation{Kind: "request-differs-from-payload", Group: group, Sig: sig + " | " + diffs[0][:strings.Index(diffs[0], ":")], Replay: replay,
+		first := diffs[0]
+		if i := strings.Index(first, ":"); i > 0 {
+			first = first[:i]
+		}
+		rep.Violate(Violation{Kind: "request-differs-from-payload", Group: group, Sig: sig + " | " + first, Replay: replay,
 			What: fmt.Sprintf("bridge request differs from the payload's parameters: %s [%s]", strings.Join(diffs, "; "), sig)})
 	}
 }
